@@ -2821,6 +2821,7 @@ event_add_nolock_(struct event *ev, const struct timeval *tv,
 				if (ev->ev_ncalls && ev->ev_pncalls) {
 					/* Abort loop */
 					*ev->ev_pncalls = 0;
+					ev->ev_pncalls = NULL;
 				}
 			}
 
@@ -2960,6 +2961,9 @@ event_del_nolock_(struct event *ev, int blocking)
 		if (ev->ev_ncalls && ev->ev_pncalls) {
 			/* Abort loop */
 			*ev->ev_pncalls = 0;
+			/* The closure's counter dies with event_signal_closure();
+			 * do not keep pointing at it. */
+			ev->ev_pncalls = NULL;
 		}
 	}
 
